@@ -238,19 +238,29 @@ class Pairs(object):
 class BuildIndex(object):
     name = 'buildIndex'
     describe = ('MibCompiler.buildIndex() with a real FileWriter(.json) on a scratch directory: chains of two builds over the '
-                'single-OID and digit-sharing pair contents; the file on disk must satisfy the same invariants')
+                'single-OID and digit-sharing pair contents, the later build given no options / the options of a compile() call '
+                '(rebuild, noDeps, ...); the file on disk must satisfy the same invariants')
 
     def blocks(self, tier):
         return [{'c': i} for i in range(12)]
 
+    # what a front end may hand to the later build: nothing, or the options it gave to compile()
+    OPTS = [{}, {'rebuild': True}, {'ignoreErrors': True, 'dryRun': False},
+            {'noDeps': True, 'rebuild': True, 'dryRun': False, 'genTexts': True, 'writeMibs': True, 'ignoreErrors': True}]
+
     def cases(self, block, tier):
         for j in range(12):
-            yield {'c1': block['c'], 'c2': j}
+            for o in range(len(self.OPTS)):
+                yield {'c1': block['c'], 'c2': j, 'o': o}
+            # the index of the destination is a symbolic link to a file kept elsewhere (a shared index)
+            yield {'c1': block['c'], 'c2': j, 'o': 0, 'linked': 1}
 
     def run_case(self, case):
         from pysmi.compiler import MibCompiler
         from pysmi.writer.localfile import FileWriter
         cs = contents('quick')
+        opts = self.OPTS[case.get('o', 0)]
+        tag = 'C18|buildIndex' + ('|rebuild-option' if opts.get('rebuild') else '')
         base = os.environ.get('VERIF_TMP') or ('/dev/shm' if os.path.isdir('/dev/shm') else None)
         d = tempfile.mkdtemp(prefix='mcC18', dir=base)
         try:
@@ -258,12 +268,17 @@ class BuildIndex(object):
             vs = []
             facts = set()
             for name, c in (('M1', cs[case['c1']]), ('M2', cs[case['c2']])):
-                comp.buildIndex({name: module_status(name, c)})
+                if name == 'M2' and case.get('linked'):
+                    os.mkdir(os.path.join(d, 'shared'))
+                    os.rename(os.path.join(d, 'index.json'), os.path.join(d, 'shared', 'the-index.json'))
+                    os.symlink(os.path.join('shared', 'the-index.json'), os.path.join(d, 'index.json'))
+                    tag = 'C18|buildIndex|linked-index'
+                comp.buildIndex({name: module_status(name, c)}, **(opts if name == 'M2' else {}))
                 facts |= facts_of(name, c)
                 with open(os.path.join(d, 'index.json')) as f:
                     doc = f.read()
-                vs += check_state(canon(doc), facts, 'C18|buildIndex')
-            extra = sorted(x for x in os.listdir(d) if x != 'index.json')
+                vs += check_state(canon(doc), facts, tag)
+            extra = sorted(x for x in os.listdir(d) if x not in ('index.json', 'shared'))
             if extra:
                 vs.append(('C18|buildIndex|stray-files', repr(extra)))
             return canon(doc), vs, 2
